@@ -112,8 +112,9 @@ def lift(x):
     raise TypeError(f"oracle cannot handle {type(x).__name__}")
 
 
-def _fun(x, f, f1, f2):
-    """elementary function with first and second derivative; the library value is good to ~1 ulp"""
+def _fun(x, f, f1, f2, g_abs=0.0):
+    """elementary function with first and second derivative; the library value is good to ~1 ulp.
+    g_abs: absolute uncertainty of f' in its customary closed forms (tanh' = 1 - tanh^2 cancels)"""
     x = lift(x)
     try:
         v, g, h = f(x.v), f1(x.v), f2(x.v)
@@ -123,7 +124,7 @@ def _fun(x, f, f1, f2):
         raise Ill("derivative of a sub-expression exceeds 1e12")
     e = abs(g) * x.e + 2 * U * abs(v)
     d = tuple(g * xd for xd in x.d)
-    de = tuple(abs(h) * x.e * abs(xd) + abs(g) * xde + 3 * U * abs(g * xd) for xd, xde in zip(x.d, x.de))
+    de = tuple(abs(h) * x.e * abs(xd) + abs(g) * xde + (3 * U * abs(g) + g_abs) * abs(xd) for xd, xde in zip(x.d, x.de))
     return X(v, e, d, de)
 
 
@@ -240,7 +241,7 @@ FUNCS = {
     "log": _log,
     "sqrt": _sqrt,
     "abs": _abs,
-    "tanh": lambda x: _fun(x, math.tanh, _sech2, lambda t: -2 * math.tanh(t) * _sech2(t)),
+    "tanh": lambda x: _fun(x, math.tanh, _sech2, lambda t: -2 * math.tanh(t) * _sech2(t), g_abs=4 * U),
     "sinh": lambda x: _fun(x, math.sinh, math.cosh, math.sinh),
     "cosh": lambda x: _fun(x, math.cosh, math.sinh, math.cosh),
     "atan": lambda x: _fun(x, math.atan, lambda t: 1 / (1 + t * t), lambda t: -2 * t / (1 + t * t) ** 2),
